@@ -92,10 +92,20 @@ Fixpoint index_of (a : A) (l : list A) : nat :=
   end.
 
 Context {F : Type} `{Num F}.
-(* encoder = np.eye(nb_classes); y_encoded = encoder[y_class_indices] *)
+(* 1-D label array or list (ndim = 1: the trailing axis is never squeezed, `if y.ndim > 1 and y.shape[-1] == 1`):
+   classes, idx = np.unique(y, return_inverse=True); encoder = np.eye(nb_classes); y_encoded = encoder[idx] *)
 Definition encode_with (cls : list A) (a : A) : list F := nth (index_of a cls) (eye (length cls)) [].
 Definition one_hot (labels : list A) : list (list F) * list A :=
   let cls := unique labels in (map (encode_with cls) labels, cls).
+
+(* 2-D label array of shape (n, m): a trailing axis of length 1 is squeezed (result (n, k)); otherwise np.unique
+   flattens, the inverse indices are reshaped to (n, m) and the result has shape (n, m, k) *)
+Fixpoint reshape_rows {B} (nr m : nat) (l : list B) : list (list B) :=
+  match nr with O => [] | S k => firstn m l :: reshape_rows k m (skipn m l) end.
+Definition one_hot_2d (rows : list (list A)) : (list (list F) + list (list (list F))) * list A :=
+  let m := length (hd [] rows) in
+  let '(enc, cls) := one_hot (concat rows) in
+  if m =? 1 then (inl enc, cls) else (inr (reshape_rows (length rows) m enc), cls).
 
 (* np.cumsum *)
 Fixpoint cumsum (acc : nat) (l : list nat) : list nat :=
